@@ -283,6 +283,9 @@ main(int argc, char** argv)
   char* tok[V_MAX_TOK];
   int   n = 0;
   v_setup_io();
+#ifdef V_GUARD_DEFAULT
+  v_guard_armed = 1;
+#endif
   cb_alloc.malloc = cb_malloc; cb_alloc.calloc = cb_calloc; cb_alloc.realloc = cb_realloc; cb_alloc.free = cb_free;
   cb_alloc.aligned_alloc = cb_aligned_alloc; cb_alloc.aligned_free = cb_aligned_free;
   char src[4096], dst[4096], other[4096];
